@@ -5,6 +5,7 @@ answered `bad-case` — never defaulted.
 -/
 import Vet.Model.Update
 import Vet.Model.Imports
+import Vet.Model.Validate
 namespace Vet.Wire
 open Vet
 
